@@ -17,7 +17,7 @@ Definition ptrunc (u : Z) (p : plain) : plain :=
 Definition dec_with {A : Type} (rd : str -> res A) (to_p : A -> plain) (data : str) : res plain :=
   match rd data with Ok a => Ok (to_p a) | Err k => Err k | Panic p => Panic p end.
 (* generic conversion source bytes -> destination bytes through the plain view *)
-Definition convert_plain (decA : str -> res plain) (encB : plain -> res str) (data : str) : res str :=
+Definition convert_plain {SA SB : Type} (decA : SA -> res plain) (encB : plain -> res SB) (data : SA) : res SB :=
   match decA data with
   | Ok p => encB p
   | Err k => Err k
